@@ -111,10 +111,19 @@ CFG_OFF = Config(use_jsonclass=False)
 # -- names ---------------------------------------------------------------------------
 
 
-def names():
+ALPHA4 = ["a", "0", "_", ".", " ", "-", "é", "٠", "\n", "ａ"]
+
+
+def names(tier="quick"):
     seen = set()
     for k in range(0, 4):
         for combo in itertools.product(ALPHA, repeat=k):
+            n = "".join(combo)
+            if n not in seen:
+                seen.add(n)
+                yield n
+    if tier == "thorough":
+        for combo in itertools.product(ALPHA4, repeat=4):
             n = "".join(combo)
             if n not in seen:
                 seen.add(n)
@@ -133,7 +142,7 @@ def names():
 
 
 def name_cases(tier):
-    for n in names():
+    for n in names(tier):
         for args in ([], {}):
             for side in ("jsonclass.load", "jsonrpc.loads", "server"):
                 if side == "server" and tier == "quick" and len(n) == 3 and n[0] in VALID_CHARS and n[1] in VALID_CHARS and valid_name(n):
@@ -369,7 +378,7 @@ META = {
     "non-ASCII letters and digits, astral) = 4369 names, plus 29 invalid characters inserted at each of the 15 positions of 'mc_canary.Boom', x list/dict "
     "arguments x {jsonclass.load, jsonrpc.loads, server}; translation-off: 22 descriptor shapes x 13 placements x {loads, load, server, server batch, "
     "client proxy}; translation-on: 17 rejected shapes x 8 placements; non-trivial = every case (each has a defined expectation)",
-    "bounds": {"quick": {"name_length": 3}, "thorough": {"name_length": 3}},
+    "bounds": {"quick": {"name_length": 3}, "thorough": {"name_length": "3 over 16 characters, 4 over 10 characters"}},
     "assumptions": [
         "an import event is attributed to the library when a jsonrpclib frame is on the stack of the importing call",
         "names that satisfy the reference predicate may be imported (only missing modules and side-effect-free ones occur in the alphabet)",
